@@ -330,8 +330,11 @@ pub fn find_location<T: PartialEq<U>, U>(tokens: &[Rc<T>], rule_tokens: &[Rc<U>]
             target_token_index += 1;
         }
         else {
+            /* Restart right after the start of the failed (partial) match, so that an
+               occurrence overlapping it is not skipped ("a a b" contains "a b"). Without a
+               partial match start_token_index == target_token_index and this is the old step. */
             rule_token_index    = 0;
-            target_token_index += 1;
+            target_token_index  = start_token_index + 1;
             start_token_index   = target_token_index;
         }
 
